@@ -94,6 +94,18 @@ def gen_c11_spec(rng: random.Random) -> Dict[str, Any]:
                 s_["task"] = "t_decl"
                 if rng.random() < 0.5:
                     s_["labels"]["team"] = "billing"
+    if rng.random() < 0.2:
+        # the retried task has a generator dependency whose teardown takes time (a rollback on the error path)
+        spec["deps"] = {"dr": {"style": rng.choice(["agen", "acm"]), "td_lat": rng.choice([0.05, 0.3]), "td_err_only": rng.random() < 0.7, "subs": [], "cache": True, "ctx": False}}
+        spec.setdefault("tasks", {})["t_rdep"] = {"fn": "async", "deps": ["dr"]}
+        for s_ in sends:
+            if s_["task"] == "t_async" and rng.random() < 0.7:
+                s_["task"] = "t_rdep"
+                for b in s_["beh"]:
+                    b["dur"] = []  # (attempts that take no time of their own: the teardown is what takes time)
+        if rng.random() < 0.6:
+            spec["retry"]["no_result_on_retry"] = False
+            spec["backend"]["lat"] = 0
     if rng.random() < 0.15:
         # sends whose confirmation gets lost: the broker has the message, the sender is told the send failed.  Whatever
         # the sender makes of that, the message is on its way once
